@@ -1,6 +1,7 @@
 -- DRIVER-PROPS: C20
 /- history-mode handler for C20: tradeshield orders, escrow balances, owner-only control, trigger condition. -/
 import ElysModel.Drv.Hist
+import ElysModel.Ids.Model
 import ElysModel.Ledger.Orders
 import ElysModel.Num.Dec
 open Lean
@@ -89,6 +90,14 @@ def handle (s : S) (i : Nat) (j : Json) : S × List Json :=
       else if still && m1.escrow.get ord.key + donated != escrowNow ord then
         some (verdictDiff i "order.escrow" (Json.mkObj [("order", ord.key), ("val", mkInt (m1.escrow.get ord.key + donated))]) (Json.mkObj [("val", mkInt (escrowNow ord))]))
       else none
+    -- the id model's invariant on the observed state: every pending order's id is below the counter (C20.order_ids_never_reused)
+    let diffs := diffs ++
+      (if !Ids.boundedNextB st.obs.spotIdCount (st.obs.spotOrders.map (·.id)) then
+        [verdictDiff i "spotOrderIdCounter" (Json.mkObj [("invariant", "every pending id < counter")])
+          (Json.mkObj [("counter", Json.num st.obs.spotIdCount), ("ids", Json.arr ((st.obs.spotOrders.map (fun p => Json.num p.id)).toArray))])] else []) ++
+      (if !Ids.boundedNextB st.obs.perpOrderIdCount (st.obs.perpOrders.map (·.id)) then
+        [verdictDiff i "perpOrderIdCounter" (Json.mkObj [("invariant", "every pending id < counter")])
+          (Json.mkObj [("counter", Json.num st.obs.perpOrderIdCount), ("ids", Json.arr ((st.obs.perpOrders.map (fun p => Json.num p.id)).toArray))])] else [])
     -- 2. property predicates on the observation
     let viols :=
       -- every pending order's escrow still holds its amount
